@@ -322,3 +322,13 @@ Theorem C02_compare_small_final_state :
       /\ (forall i, 0 <= i <= 15 -> i <> 11 -> R m' i = R m i) /\ mbus m' = mbus m.
 Proof. exact cmp_small_final. Qed.
 Print Assumptions C02_compare_small_final_state.
+
+(* the condition-code setters and getters the theorems above speak about are Cpu::set_{c,v,z,n}_flag and
+   Cpu::{c,v,z,n}_flag as they stand in /repo/src/cpu.rs (Gen/GenFlags.v: their bodies translated on every run) *)
+From Dmd Require Import Gen.GenFlags Proofs.FlagTie.
+Theorem C02_flag_helpers_are_source_functions :
+  forall m b,
+    (set_c b m = g_set_c_flag m b /\ set_v b m = g_set_v_flag m b /\ set_z b m = g_set_z_flag m b /\ set_n b m = g_set_n_flag m b)
+    /\ (flag F_C m = g_c_flag m /\ flag F_V m = g_v_flag m /\ flag F_Z m = g_z_flag m /\ flag F_N m = g_n_flag m).
+Proof. intros m b. split; [apply setters_are_source | apply getters_are_source]. Qed.
+Print Assumptions C02_flag_helpers_are_source_functions.
